@@ -279,6 +279,63 @@ def check_literal_histories(case) -> Res:
     return Res("ok" if not viol else "violations", nontrivial=json.dumps([list(x) for x in hist]), violations=uniq, transitions=len(hist))
 
 
+def check_tree_untouched(case) -> Res:
+    """Dry-run and failing calls on every layout (parent present / missing / nested missing): the WHOLE sandbox tree is unchanged."""
+    kind, layout, existing = case
+    e = _env()
+    R = os.path.join(e["root"], f"tree{os.getpid()}")
+    if os.path.exists(R):
+        shutil.rmtree(R)
+    os.makedirs(R)
+    sub = {"present": "", "missing": "newdir", "nested": "a/b/c"}[layout]
+    if layout == "present" or existing:
+        os.makedirs(os.path.join(R, sub), exist_ok=True)
+    path = os.path.join(R, sub, "f.oct.md")
+    if existing:
+        with open(path, "w", encoding="utf-8", newline="") as f:
+            f.write(A_TEXT)
+    kw = dict(target_path=path)
+    if kind == "dry_content":
+        kw.update(content=B_TEXT, corrections_only=True)
+    elif kind == "dry_content_lenient":
+        kw.update(content="plain words only", corrections_only=True, lenient=True)
+    elif kind == "dry_changes":
+        kw.update(changes={"K": "x"}, corrections_only=True)
+    elif kind == "dry_normalize":
+        kw.update(corrections_only=True)
+    elif kind == "stale_content":
+        kw.update(content=B_TEXT, base_hash=sha("stale"))
+    elif kind == "unparseable_content":
+        kw.update(content="K::a^b\n")
+    elif kind == "both_content_and_changes":
+        kw.update(content=B_TEXT, changes={"K": 1})
+    elif kind == "bad_extension":
+        kw.update(target_path=path + ".txt", content=B_TEXT)
+    elif kind == "changes_absent":
+        kw.update(changes={"K": 1})
+
+    def snap():
+        out = []
+        for dp, dn, fn in os.walk(R):
+            for n in sorted(dn):
+                out.append(("d", os.path.relpath(os.path.join(dp, n), R)))
+            for n in sorted(fn):
+                with open(os.path.join(dp, n), "rb") as f:
+                    out.append(("f", os.path.relpath(os.path.join(dp, n), R), f.read()))
+        return sorted(out)
+    before = snap()
+    r = e["loop"].run_until_complete(e["tool"].execute(**kw))
+    after = snap()
+    viol = []
+    dry = kind.startswith("dry")
+    if (dry or r.get("status") == "error") and before != after:
+        added = [x[:2] for x in after if x not in before]
+        viol.append(dict(descriptor=f"tree:{'dry-run' if dry else 'failed-call'}-changed-the-file-system:{layout}", case=dict(kind=kind, layout=layout, existing=existing),
+                         observed=f"status={r.get('status')} added={added}", expected="file system exactly as it was"))
+    shutil.rmtree(R, ignore_errors=True)
+    return Res(str(r.get("status")), nontrivial=(kind, layout, existing, r.get("status")), violations=viol)
+
+
 # ------------------------------------------------------------------ (b) two writer processes
 def writer_fn(kind, path, base, content):
     e = _env()
@@ -488,6 +545,8 @@ def run(ctx):
     if ctx.quick:
         hists = [h for h in hists if len(h) < 3] + [h for h in hists if len(h) == 3][::3]
     ctx.explore("histories.literal_one_process", hists, check_literal_histories, chunk=50)
+    kinds = ["dry_content", "dry_content_lenient", "dry_changes", "dry_normalize", "stale_content", "unparseable_content", "both_content_and_changes", "bad_extension", "changes_absent"]
+    ctx.explore("dry_and_failed_calls.tree", [(k, l, ex) for k in kinds for l in ("present", "missing", "nested") for ex in (False, True)], check_tree_untouched, chunk=6)
     # (b) schedules
     pairs = PAIRS[:4] if ctx.quick else PAIRS
     total_states = total_trans = 0
@@ -510,6 +569,8 @@ def run(ctx):
 def replay(ctx, rp):
     c = rp["case"]
     try:
+        if "kind" in c and "layout" in c:
+            return check_tree_untouched((c["kind"], c["layout"], c["existing"])).violations
         if "history" in c:
             return check_literal_histories([tuple(x) for x in c["history"]]).violations
         if "state" in c or "event" in c:
